@@ -8,26 +8,26 @@ are about `run`, the model of `Connector.Pin / Unpin / PinLsCid` talking to a
 daemon with an arbitrary pin table and an arbitrary script of per-request
 behaviours; none has a size bound.
 
-* `pin_success_sound_partial`, `unpin_success_sound`, `ls_truthful`
-* `errors_reported_partial`
+* `pin_success_sound`, `unpin_success_sound`, `ls_truthful`
+* `errors_reported`
 * `no_request_when_already`, `unpin_absent_ok`
 * `stall_times_out_partial`
 * `update_only_if_recursive`, `update_unpin_false`, `source_kept`
 * `run_returns`
 * `allowed_holds_partial` — every output the model admits satisfies every clause
-  of `Spec.C16`, outside the two recorded findings;
+  of `Spec.C16`, outside the one recorded finding (a stalled pin/update);
 * `holds_iff` — the Bool checker `holds` read as a proposition;
-* `C16_full_fails_streamErr`, `C16_full_fails_updateStall` — with the two
-  findings the full statement is false, with concrete witnesses (replayed on the
-  implementation by the corpus).
+* `C16_full_fails_updateStall`, `C16_full_fails` — with that finding the full
+  statement is false, with a concrete witness (replayed on the implementation by
+  the corpus).
+
+(The error object inside a 200 progress stream, formerly a second finding, is
+repaired in `pinProgress`; `serr` now yields an error in the model and the
+theorems no longer carry a hypothesis about it.)
 -/
 namespace CV.C16
 
-/-- finding K16a: the pin/add of this run is answered with an error object inside a 200 stream -/
-def streamErrServed (i : Input) : Bool :=
-  (servedT i (run i).trace).any (fun x => x.1.isAdd && x.2 == .streamErr)
-
-/-- finding K16b: the pin/update of this run is answered by a stall -/
+/-- the recorded finding: the pin/update of this run is answered by a stall -/
 def updateStalled (i : Input) : Bool :=
   (servedT i (run i).trace).any (fun x => (match x.1 with | .upd .. => true | _ => false) && x.2 == .stall)
 
@@ -37,20 +37,17 @@ def obs (i : Input) (sw : List Nat) : Output :=
 
 /-! ### success only if the daemon reached the asked state -/
 
-/-- `Pin` returns nil ⇒ the daemon holds the CID in the asked mode (outside finding K16a). -/
-theorem pin_success_sound_partial (i : Input) (hw : wf i = true) (hop : i.op = .pin)
-    (hk : streamErrServed i = false) (h : (run i).res = .ok) :
-    (run i).final i.cid = wanted i.depth := by
+/-- `Pin` returns nil ⇒ the daemon holds the CID in the asked mode. -/
+theorem pin_success_sound (i : Input) (hw : wf i = true) (hop : i.op = .pin)
+    (h : (run i).res = .ok) : (run i).final i.cid = wanted i.depth := by
   rw [wanted_eq_asked]
-  unfold streamErrServed at hk
-  simp only [run, hop] at h hk ⊢
+  simp only [run, hop] at h ⊢
   rcases pin_cases i with ⟨_, hp⟩ | ⟨h0, hp⟩ | ⟨s, h0, hs, hsrc, hp⟩ | ⟨s, f, h0, hs, hsrc, hu, hp⟩ |
       ⟨s, f, h0, hs, hsrc, hu, hp⟩
   · rw [hp] at h; simp at h
   · rw [hp]; exact lsCid_asked _ _ _ _ h0
-  · rw [hp] at h hk ⊢
-    simp [servedT, List.zipIdx, addReq, Req.isAdd] at hk
-    exact addCall_ok _ _ _ _ h hk
+  · rw [hp] at h ⊢
+    exact addCall_ok _ _ _ _ h
   · rw [hp] at h ⊢
     have hr := updCall_ok _ _ _ _ h
     obtain ⟨_, hm⟩ := lsCid_r _ _ _ _ (clsAt_ne_honestAny _ _) hu
@@ -58,9 +55,8 @@ theorem pin_success_sound_partial (i : Input) (hw : wf i = true) (hop : i.op = .
       intro hd
       simp [wf, hsrc, hm, hd] at hw
     simp only [hr, asked, hd, if_false]
-  · rw [hp] at h hk ⊢
-    simp [servedT, List.zipIdx, addReq, Req.isAdd] at hk
-    exact addCall_ok _ _ _ _ h hk
+  · rw [hp] at h ⊢
+    exact addCall_ok _ _ _ _ h
 
 /-- `Unpin` returns nil ⇒ the daemon holds no pin on the CID (for a daemon that does not lie). -/
 theorem unpin_success_sound (i : Input) (hw : wf i = true) (hop : i.op = .unpin)
@@ -170,15 +166,13 @@ theorem source_kept (i : Input) (s : Nat) (hop : i.op = .pin) (hsrc : i.src = so
 
 /-! ### daemon and transport failures are reported as errors -/
 
-/-- if any request that decides the outcome failed, the call does not report success
-(outside finding K16a) -/
-theorem errors_reported_partial (i : Input) (hk : streamErrServed i = false)
+/-- if any request that decides the outcome failed, the call does not report success -/
+theorem errors_reported (i : Input)
     (hf : ((servedT i (run i).trace).zipIdx.any (fun x => failure i x.2 x.1.1 x.1.2)) = true) :
     isSuccess (run i).res = false := by
-  unfold streamErrServed at hk
   cases hop : i.op with
   | unpin =>
-    simp only [run, hop, unpin] at hf hk ⊢
+    simp only [run, hop, unpin] at hf ⊢
     by_cases hd : i.unpinDisable = true
     · simp [hd, isSuccess]
     · simp only [hd, if_false, Bool.false_eq_true] at hf ⊢
@@ -193,16 +187,16 @@ theorem errors_reported_partial (i : Input) (hk : streamErrServed i = false)
       simp [servedT, List.zipIdx, Req.isAdd] at hf
       rw [lsCid_of_failure i _ _ _ hf] at hl; cases hl
   | pin =>
-    simp only [run, hop] at hf hk ⊢
+    simp only [run, hop] at hf ⊢
     rcases pin_cases i with ⟨_, hp⟩ | ⟨h0, hp⟩ | ⟨s, h0, hs, hsrc, hp⟩ | ⟨s, f, h0, hs, hsrc, hu, hp⟩ |
-        ⟨s, f, h0, hs, hsrc, hu, hp⟩ <;> rw [hp] at hf hk ⊢
+        ⟨s, f, h0, hs, hsrc, hu, hp⟩ <;> rw [hp] at hf ⊢
     · rfl
     · simp [servedT, List.zipIdx, Req.isAdd] at hf
       rw [lsCid_of_failure i _ _ _ hf] at h0; cases h0
-    · simp [servedT, List.zipIdx, Req.isAdd, addReq] at hf hk
+    · simp [servedT, List.zipIdx, Req.isAdd, addReq] at hf
       rcases hf with hf | hf
       · rw [lsCid_of_failure i _ _ _ hf] at h0; cases h0
-      · have := addCall_of_failure i 1 (i.beh 1) (by simpa [addReq] using hf) hk
+      · have := addCall_of_failure i 1 (i.beh 1) (by simpa [addReq] using hf)
         simp [this, isSuccess]
     · simp [servedT, List.zipIdx, Req.isAdd] at hf
       rcases hf with hf | hf | hf
@@ -213,17 +207,17 @@ theorem errors_reported_partial (i : Input) (hk : streamErrServed i = false)
         · exact absurd h hne
         · simp [h, isSuccess]
         · simp [h, isSuccess]
-    · simp [servedT, List.zipIdx, Req.isAdd, addReq] at hf hk
+    · simp [servedT, List.zipIdx, Req.isAdd, addReq] at hf
       rcases hf with hf | hf | hf
       · rw [lsCid_of_failure i _ _ _ hf] at h0; cases h0
       · simp [failure] at hf
-      · have := addCall_of_failure i 2 (i.beh 2) (by simpa [addReq] using hf) hk
+      · have := addCall_of_failure i 2 (i.beh 2) (by simpa [addReq] using hf)
         simp [this, isSuccess]
 
 /-! ### a pin that makes no progress is given up -/
 
 /-- a pin/add that stalls, or whose progress number stops rising, makes `Pin` return an error by
-itself (outside finding K16b: the stalled pin/update) -/
+itself (outside the recorded finding: the stalled pin/update) -/
 theorem stall_times_out_partial (i : Input) (hop : i.op = .pin) (hk : updateStalled i = false)
     (hs : (servedT i (run i).trace).any (fun x => isPinning x.1 && (x.2 == .stall || x.2 == .noProgress)) = true) :
     (run i).res = .err := by
@@ -269,9 +263,9 @@ theorem run_returns (i : Input) : (run i).res ≠ .hang ∧ (run i).res ≠ .pan
 property, for every pin, prior pin table and script of daemon behaviours in the quantifier's domain. -/
 def C16_full : Prop := ∀ (i : Input) (o : Output), wf i = true → allowed i o = true → holds i o = true
 
-/-- C16 outside the two recorded findings. -/
+/-- C16 outside the recorded finding (stalled pin/update). -/
 theorem allowed_holds_partial (i : Input) (o : Output) (hw : wf i = true) (ha : allowed i o = true)
-    (hk1 : streamErrServed i = false) (hk2 : updateStalled i = false) : holds i o = true := by
+    (hk2 : updateStalled i = false) : holds i o = true := by
   simp only [allowed, Bool.and_eq_true, beq_iff_eq, List.all_eq_true, List.mem_range] at ha
   obtain ⟨⟨⟨hres, htr⟩, hfin⟩, hsw⟩ := ha
   have hcid : i.cid < i.n := by
@@ -285,7 +279,7 @@ theorem allowed_holds_partial (i : Input) (o : Output) (hw : wf i = true) (ha : 
     unfold cPinSound; rw [hres, hfc]
     by_cases h : (i.op == .pin && (run i).res == .ok) = true
     · have h' : i.op = .pin ∧ (run i).res = .ok := by simpa using h
-      simp [pin_success_sound_partial i hw h'.1 hk1 h'.2]
+      simp [pin_success_sound i hw h'.1 h'.2]
     · simp [h]
   have c2 : cUnpinSound i o = true := by
     unfold cUnpinSound; rw [hres, hfc]
@@ -299,7 +293,7 @@ theorem allowed_holds_partial (i : Input) (o : Output) (hw : wf i = true) (ha : 
   have c4 : cErrorsReported i o = true := by
     unfold cErrorsReported served; rw [hres, htr]
     by_cases h : ((servedT i (run i).trace).zipIdx.any (fun x => failure i x.2 x.1.1 x.1.2)) = true
-    · simp [errors_reported_partial i hk1 h]
+    · simp [errors_reported i h]
     · simp [h]
   have c5 : cNoRequestWhenAlready i o = true := by
     rw [cNoRequestWhenAlready_iff, hres, htr, hfc]
@@ -389,24 +383,13 @@ theorem holds_iff (i : Input) (o : Output) : holds i o = true ↔
     cUnpinAbsentOk_iff, cStallTimesOut_iff, cReturns_iff, cUpdateOnlyIfRecursive_iff,
     cUpdateUnpinFalse_iff, cSourceKept_iff]
 
-/-! ### the two findings: the full statement is false -/
+/-! ### the finding: the full statement is false -/
 
-/-- K16a witness: CID 0 not pinned, pin/ls answered truthfully, pin/add answered by a 200 stream
-that carries an error object: the connector reports success, the daemon holds nothing. -/
-def witnessStreamErr : Input :=
-  { op := .pin, n := 1, cid := 0, depth := -1, modeRec := true, src := none, norig := 0,
-    unpinDisable := false, table := fun _ => .u, script := [.ok, .serr] }
-
-/-- K16b witness: source 1 recursively pinned, pin/update never answered: the connector returns
-only when the caller's context ends. -/
+/-- witness: source 1 recursively pinned, pin/update never answered: the connector returns only
+when the caller's context ends. -/
 def witnessUpdateStall : Input :=
   { op := .pin, n := 2, cid := 0, depth := -1, modeRec := true, src := some 1, norig := 0,
     unpinDisable := false, table := fun c => if c = 1 then .r else .u, script := [.ok, .ok, .st] }
-
-theorem C16_full_fails_streamErr :
-    wf witnessStreamErr = true ∧ allowed witnessStreamErr (obs witnessStreamErr []) = true ∧
-      cPinSound witnessStreamErr (obs witnessStreamErr []) = false ∧
-      cErrorsReported witnessStreamErr (obs witnessStreamErr []) = false := by decide
 
 theorem C16_full_fails_updateStall :
     wf witnessUpdateStall = true ∧ allowed witnessUpdateStall (obs witnessUpdateStall []) = true ∧
@@ -414,7 +397,7 @@ theorem C16_full_fails_updateStall :
 
 theorem C16_full_fails : ¬ C16_full := by
   intro h
-  have := h witnessStreamErr (obs witnessStreamErr []) (by decide) (by decide)
+  have := h witnessUpdateStall (obs witnessUpdateStall []) (by decide) (by decide)
   revert this
   decide
 
@@ -427,7 +410,7 @@ def exUpdate : Input :=
     script := [.ok, .ok, .ok] }
 
 example :
-    wf exUpdate = true ∧ streamErrServed exUpdate = false ∧ updateStalled exUpdate = false ∧
+    wf exUpdate = true ∧ updateStalled exUpdate = false ∧
       (run exUpdate).trace = [.ls 0 true, .ls 1 true, .upd 1 0 false] ∧ (run exUpdate).res = .ok ∧
       (run exUpdate).final 0 = .r ∧ (run exUpdate).final 1 = .r ∧ (run exUpdate).swarmMax = 10 := by decide
 
@@ -437,9 +420,19 @@ def exStall : Input :=
     unpinDisable := false, table := fun _ => .i, script := [.e, .ps] }
 
 example :
-    wf exStall = true ∧ streamErrServed exStall = false ∧ updateStalled exStall = false ∧
+    wf exStall = true ∧ updateStalled exStall = false ∧
       (run exStall).trace = [.ls 0 false, .add 0 false none true] ∧ (run exStall).res = .err ∧
       (run exStall).final 0 = .i := by decide
+
+/-- pin/add answered by a 200 stream that carries an error: reported as an error, nothing pinned -/
+def exStreamErr : Input :=
+  { op := .pin, n := 1, cid := 0, depth := -1, modeRec := true, src := none, norig := 0,
+    unpinDisable := false, table := fun _ => .u, script := [.ok, .serr] }
+
+example :
+    wf exStreamErr = true ∧ updateStalled exStreamErr = false ∧
+      (run exStreamErr).trace = [.ls 0 true, .add 0 true none true] ∧ (run exStreamErr).res = .err ∧
+      (run exStreamErr).final 0 = .u := by decide
 
 /-- unpinning an only indirectly pinned CID: the daemon says "not pinned", the connector says ok -/
 def exUnpinAbsent : Input :=
